@@ -126,6 +126,29 @@ class RaiseCb:
                 raise HarnessError('finish callback failed')
 
 
+class RaiseOnStop:
+    """Workload callback (shutdown or restored callback, registered last): user code that fails once, on the k-th
+    call - but only when the stop / restore was requested by a script operation or is a failure event, never in the
+    middle of a Maintainer's own bookkeeping."""
+
+    def __init__(self, k, what):
+        self.k, self.what, self.n, self.fired = k, what, 0, False
+
+    def __call__(self, dev, *a):
+        if instrument.PROBING or self.fired:
+            return
+        self.n += 1
+        if self.n < self.k:
+            return
+        bus = instrument.CUR
+        ev = bus.in_event if bus is not None else None
+        name = instrument.action_name(ev.action) if ev is not None else None
+        ok = {'shutdown': ('script_shutdown', '_fail'), 'restored': ('script_restore',)}[self.what]
+        if (ev is None and bus is not None and bus.external_depth > 0) or name in ok:
+            self.fired = True
+            raise HarnessError(self.what + ' callback failed')
+
+
 class RestoredCb:
     def __init__(self, log, dev_id, idx):
         self.log, self.dev_id, self.idx = log, dev_id, idx
@@ -542,6 +565,10 @@ def build(spec, bus=None, script=True, system=None, known=None):
                 d.add_shutdown_callback(RefuseCb(log, i, it['refuse']))
             if it.get('raise_at'):
                 d.add_finish_processing_callback(RaiseCb(it['raise_at']))
+            if it.get('raise_shutdown'):
+                d.add_shutdown_callback(RaiseOnStop(it['raise_shutdown'], 'shutdown'))
+            if it.get('raise_restored'):
+                d.add_restored_callback(RaiseOnStop(it['raise_restored'], 'restored'))
         elif k == 'buffer':
             d = Buffer(name=nm, upstream=ups, minimum_delay=it.get('delay', 0), capacity=it.get('cap'),
                        value=it.get('value', 0))
